@@ -363,19 +363,53 @@ impl SMsg {
 }
 
 #[derive(Clone, Debug)]
+pub enum SQuery {
+    Simulation { offer: SCoin, ask: String, pool: String },
+    ReverseSimulation { ask: SCoin, offer_denom: String, pool: String },
+    SimOps { amount: u128, ops: Vec<SSwapOp> },
+    RevSimOps { amount: u128, ops: Vec<SSwapOp> },
+    Rewards { addr: String, until: Option<u64> },
+}
+fn ops_term(ops: &[SSwapOp]) -> String {
+    clist(&ops.iter().map(|o| format!("{{| so_in := {}; so_out := {}; so_pool := {} |}}", cstr(&o.t_in), cstr(&o.t_out), cstr(&o.pool))).collect::<Vec<_>>())
+}
+impl SQuery {
+    pub fn term(&self) -> String {
+        match self {
+            SQuery::Simulation { offer, ask, pool } => format!("QSimulation {} {} {}", coin_term(offer), cstr(ask), cstr(pool)),
+            SQuery::ReverseSimulation { ask, offer_denom, pool } => format!("QReverseSimulation {} {} {}", coin_term(ask), cstr(offer_denom), cstr(pool)),
+            SQuery::SimOps { amount, ops } => format!("QSimulateOps {} {}", amount, ops_term(ops)),
+            SQuery::RevSimOps { amount, ops } => format!("QReverseSimulateOps {} {}", amount, ops_term(ops)),
+            SQuery::Rewards { addr, until } => format!("QRewards {} {}", cstr(addr), oz(until)),
+        }
+    }
+    pub fn kind(&self) -> &'static str {
+        match self {
+            SQuery::Simulation { .. } => "q_simulation",
+            SQuery::ReverseSimulation { .. } => "q_reverse_simulation",
+            SQuery::SimOps { .. } => "q_simulate_ops",
+            SQuery::RevSimOps { .. } => "q_reverse_simulate_ops",
+            SQuery::Rewards { .. } => "q_rewards",
+        }
+    }
+}
+
+#[derive(Clone, Debug)]
 pub enum SOp {
     SetBlock { height: u64, time: u64 },
     Tx { sender: String, target: String, msg: SMsg, funds: Vec<SCoin> },
     BankSend { from: String, to: String, amount: Vec<SCoin> },
     SetFault(u64),
+    Query(SQuery),
 }
 impl SOp {
     pub fn term(&self) -> String {
         match self {
-            SOp::SetBlock { height, time } => format!("SetBlock {{| height := {}; time := {} |}}", height, time),
-            SOp::Tx { sender, target, msg, funds } => format!("Tx {} {} {} {}", cstr(sender), cstr(target), msg.term(), coins_term(funds)),
-            SOp::BankSend { from, to, amount } => format!("BankSendOp {} {} {}", cstr(from), cstr(to), coins_term(amount)),
-            SOp::SetFault(k) => format!("SetFault {}", k),
+            SOp::SetBlock { height, time } => format!("COp (SetBlock {{| height := {}; time := {} |}})", height, time),
+            SOp::Tx { sender, target, msg, funds } => format!("COp (Tx {} {} {} {})", cstr(sender), cstr(target), msg.term(), coins_term(funds)),
+            SOp::BankSend { from, to, amount } => format!("COp (BankSendOp {} {} {})", cstr(from), cstr(to), coins_term(amount)),
+            SOp::SetFault(k) => format!("COp (SetFault {})", k),
+            SOp::Query(q) => format!("CQuery ({})", q.term()),
         }
     }
     pub fn descr(&self) -> String {
@@ -384,6 +418,7 @@ impl SOp {
             SOp::Tx { sender, target, msg, funds } => format!("TX {} -> {} {:?} funds={:?}", sender, target, msg, funds),
             SOp::BankSend { from, to, amount } => format!("BANK {} -> {} {:?}", from, to, amount),
             SOp::SetFault(k) => format!("FAULT {}", k),
+            SOp::Query(q) => format!("QUERY {:?}", q),
         }
     }
 }
@@ -746,6 +781,64 @@ impl Sim {
             SOp::SetFault(k) => {
                 self.fault.set(*k as i64);
                 true
+            }
+            SOp::Query(_) => true,
+        }
+    }
+
+    fn real_ops(&self, ops: &[SSwapOp]) -> Vec<pmm::SwapOperation> {
+        ops.iter()
+            .map(|o| pmm::SwapOperation::MantraSwap {
+                token_in_denom: self.real_denom(&o.t_in),
+                token_out_denom: self.real_denom(&o.t_out),
+                pool_identifier: o.pool.clone(),
+            })
+            .collect()
+    }
+
+    /// answers a query on the real contracts (canonical form shared with CasesChain.run_query)
+    pub fn query(&self, q: &SQuery) -> Val {
+        match q {
+            SQuery::Simulation { offer, ask, pool } => {
+                let r: Option<Result<pmm::SimulationResponse, _>> = guarded(|| {
+                    self.app.wrap().query_wasm_smart(&self.pm, &pmm::QueryMsg::Simulation {
+                        offer_asset: rcoin(offer, self), ask_asset_denom: self.real_denom(ask), pool_identifier: pool.clone() })
+                });
+                match r {
+                    Some(Ok(s)) => vl(vec![vz(1), vl(vec![vz(s.return_amount), vz(s.slippage_amount), vz(s.swap_fee_amount), vz(s.protocol_fee_amount), vz(s.burn_fee_amount), vz(s.extra_fees_amount)])]),
+                    _ => vl(vec![vz(0)]),
+                }
+            }
+            SQuery::ReverseSimulation { ask, offer_denom, pool } => {
+                let r: Option<Result<pmm::ReverseSimulationResponse, _>> = guarded(|| {
+                    self.app.wrap().query_wasm_smart(&self.pm, &pmm::QueryMsg::ReverseSimulation {
+                        ask_asset: rcoin(ask, self), offer_asset_denom: self.real_denom(offer_denom), pool_identifier: pool.clone() })
+                });
+                match r {
+                    Some(Ok(s)) => vl(vec![vz(1), vl(vec![vz(s.offer_amount), vz(s.slippage_amount), vz(s.swap_fee_amount), vz(s.protocol_fee_amount), vz(s.burn_fee_amount), vz(s.extra_fees_amount)])]),
+                    _ => vl(vec![vz(0)]),
+                }
+            }
+            SQuery::SimOps { amount, ops } => {
+                let r: Option<Result<pmm::SimulateSwapOperationsResponse, _>> = guarded(|| {
+                    self.app.wrap().query_wasm_smart(&self.pm, &pmm::QueryMsg::SimulateSwapOperations { offer_amount: Uint128::new(*amount), operations: self.real_ops(ops) })
+                });
+                match r { Some(Ok(s)) => vl(vec![vz(1), vz(s.return_amount)]), _ => vl(vec![vz(0)]) }
+            }
+            SQuery::RevSimOps { amount, ops } => {
+                let r: Option<Result<pmm::ReverseSimulateSwapOperationsResponse, _>> = guarded(|| {
+                    self.app.wrap().query_wasm_smart(&self.pm, &pmm::QueryMsg::ReverseSimulateSwapOperations { ask_amount: Uint128::new(*amount), operations: self.real_ops(ops) })
+                });
+                match r { Some(Ok(s)) => vl(vec![vz(1), vz(s.offer_amount)]), _ => vl(vec![vz(0)]) }
+            }
+            SQuery::Rewards { addr, until } => {
+                let r: Option<Result<fmm::RewardsResponse, _>> = guarded(|| {
+                    self.app.wrap().query_wasm_smart(&self.fm, &fmm::QueryMsg::Rewards { address: self.real_addr(addr), until_epoch: *until })
+                });
+                match r {
+                    Some(Ok(fmm::RewardsResponse::RewardsResponse { total_rewards, .. })) => vl(vec![vz(1), vl(total_rewards.iter().map(|c| self.v_coin(c)).collect())]),
+                    _ => vl(vec![vz(0)]),
+                }
             }
         }
     }
